@@ -607,6 +607,12 @@ def standard_prologue(rep, prop, lean_targets, audit_modules, theorems, need_har
     ties = ties if ties is not None else TIES_BY_PROP.get(prop)
     if ties:
         tie_obligations(rep, prop, ties)
+    if okb and rep.tier == "thorough":
+        # the toolchain's independent re-checker replays the compiled declarations of each property module
+        for mod in audit_modules:
+            p = subprocess.run(["lake", "env", "leanchecker", mod], cwd=LEAN, stdout=subprocess.PIPE,
+                               stderr=subprocess.STDOUT, text=True)
+            rep.obligation(f"leanchecker:{mod}", p.returncode == 0, p.stdout[-2000:])
     hits = grep_forbidden()
     rep.obligation("no-sorry-admit-axiom-native_decide", not hits, "\n".join(hits))
     if need_harness:
